@@ -227,3 +227,210 @@ Proof.
   { rewrite <- H. apply in_or_app. now left. }
   apply in_map_iff in Hw2. destruct Hw2 as (c & <- & Hc). eauto.
 Qed.
+
+(* ------------------------------------------------------------------ allocation: inside one lock region *)
+Definition locked1 : list ainstr := [ILock; ILoad; IStoreInc; IRetLoad; IUnlock].
+Definition locked2 : list ainstr := [ILock; ILoad; IStoreInc; ILoad; IRetReg; IUnlock].
+
+(* remaining code: outside the region / at the first load / at the store / after the store (the
+   counter is fresh) / at the register return of the second form / at the unlock *)
+Inductive k_out : list ainstr -> Prop :=
+| ko_nil : k_out []
+| ko_lock c : k_load c -> k_out (ILock :: c)
+with k_load : list ainstr -> Prop :=
+| kl c : k_store c -> k_load (ILoad :: c)
+with k_store : list ainstr -> Prop :=
+| ks c : k_fresh c -> k_store (IStoreInc :: c)
+with k_fresh : list ainstr -> Prop :=
+| kf_retload c : k_unlock c -> k_fresh (IRetLoad :: c)
+| kf_load c : k_retreg c -> k_fresh (ILoad :: c)
+with k_retreg : list ainstr -> Prop :=
+| kr c : k_unlock c -> k_retreg (IRetReg :: c)
+with k_unlock : list ainstr -> Prop :=
+| ku c : k_out c -> k_unlock (IUnlock :: c).
+
+Definition k_in (c : list ainstr) : Prop := k_load c \/ k_store c \/ k_fresh c \/ k_retreg c \/ k_unlock c.
+
+Lemma k_out_repeat1 n : k_out (concat (repeat locked1 n)).
+Proof. induction n as [|n IH]; cbn; [constructor|]. repeat constructor. exact IH. Qed.
+Lemma k_out_repeat2 n : k_out (concat (repeat locked2 n)).
+Proof.
+  induction n as [|n IH]; cbn; [constructor|].
+  apply ko_lock, kl, ks, kf_load, kr, ku. exact IH.
+Qed.
+
+Definition InvK (g0 : Z) (s : astate) : Prop :=
+  (forall i t, nth_error (aths s) i = Some t ->
+     (k_out (acode t) /\ alk s <> Some i) \/
+     (alk s = Some i /\
+      (k_load (acode t) \/ (k_store (acode t) /\ areg t = ag s) \/
+       (k_fresh (acode t) /\ g0 < ag s /\ Forall (fun id => id < ag s) (ids s)) \/
+       (k_retreg (acode t) /\ areg t = ag s /\ g0 < ag s /\ Forall (fun id => id < ag s) (ids s)) \/
+       k_unlock (acode t)))) /\
+  g0 <= ag s /\
+  Forall (fun id => g0 < id <= ag s) (ids s) /\
+  NoDup (ids s).
+
+Lemma astep_InvK g0 s i : InvK g0 s -> InvK g0 (astep s i).
+Proof.
+  intros Hinv. pose proof Hinv as (Hthr & Hg & Hle & Hnd). unfold astep.
+  destruct (nth_error (aths s) i) as [t|] eqn:Ei; [|exact Hinv].
+  destruct (acode t) as [|ins rest] eqn:Ec; [exact Hinv|].
+  (* when the lock is free or with thread i, every other thread is outside the region *)
+  assert (Hout : alk s = None \/ alk s = Some i ->
+                 forall j tj, j <> i -> nth_error (aths s) j = Some tj -> k_out (acode tj)).
+  { intros Hl j tj Hne Hj. destruct (Hthr j tj Hj) as [(Ho & _)|(Hh & _)]; [exact Ho|].
+    destruct Hl as [E|E]; congruence. }
+  destruct (Hthr i t Ei) as [(Ho & Hn)|(Hh & Hst)]; rewrite Ec in *.
+  - (* outside: the instruction is ILock *)
+    inversion Ho as [|c Hl]; subst. destruct (alk s) as [h|] eqn:El; [exact Hinv|].
+    unfold InvK, ids; cbn [ag alk aths alog].
+    split; [|split; [exact Hg|split; [exact Hle|exact Hnd]]].
+    intros j tj Hj. apply nth_upd_cases in Hj. destruct Hj as [(<- & -> & _)|(Hne & Hj)].
+    + right. cbn. auto.
+    + left. split; [apply (Hout (or_introl eq_refl) j tj); congruence|congruence].
+  - (* holder *)
+    assert (Hothers : forall lk' j tj, j <> i -> nth_error (aths s) j = Some tj ->
+                      (lk' = Some i \/ lk' = None) -> k_out (acode tj) /\ lk' <> Some j).
+    { intros lk' j tj Hne Hj Hl. split; [apply (Hout (or_intror Hh) j tj Hne Hj)|].
+      destruct Hl as [-> | ->]; congruence. }
+    destruct Hst as [Hl|[(Hs & Hr)|[(Hf & Hgt & Hlt)|[(Hrr & Hr & Hgt & Hlt)|Hu]]]].
+    + (* first load *)
+      inversion Hl as [c Hs]; subst.
+      unfold InvK, ids; cbn [ag alk aths alog].
+      split; [|split; [exact Hg|split; [exact Hle|exact Hnd]]].
+      intros j tj Hj. apply nth_upd_cases in Hj. destruct Hj as [(<- & -> & _)|(Hne & Hj)].
+      * right. cbn. split; [exact Hh|]. right; left. auto.
+      * left. apply Hothers; auto; congruence.
+    + (* store: the counter moves above every id *)
+      inversion Hs as [c Hf]; subst.
+      unfold InvK, ids; cbn [ag alk aths alog].
+      split; [|split; [lia|split; [|exact Hnd]]].
+      * intros j tj Hj. apply nth_upd_cases in Hj. destruct Hj as [(<- & -> & _)|(Hne & Hj)].
+        -- right. cbn. split; [exact Hh|]. right; right; left. split; [exact Hf|]. split; [lia|].
+           eapply Forall_impl; [|exact Hle]. cbn. intros; lia.
+        -- left. apply Hothers; auto; congruence.
+      * eapply Forall_impl; [|exact Hle]. cbn. intros; lia.
+    + (* counter fresh: return it, or load it first *)
+      inversion Hf as [c Hu|c Hrr]; subst.
+      * unfold InvK, ids; cbn [ag alk aths alog map snd].
+        split; [|split; [exact Hg|split; [|]]].
+        -- intros j tj Hj. apply nth_upd_cases in Hj. destruct Hj as [(<- & -> & _)|(Hne & Hj)].
+           ++ right. cbn. split; [exact Hh|]. right; right; right; right. exact Hu.
+           ++ left. apply Hothers; auto; congruence.
+        -- constructor; [lia|exact Hle].
+        -- constructor; [|exact Hnd]. intros Hin. eapply Forall_forall in Hlt; [|exact Hin]. cbn in Hlt. lia.
+      * unfold InvK, ids; cbn [ag alk aths alog].
+        split; [|split; [exact Hg|split; [exact Hle|exact Hnd]]].
+        intros j tj Hj. apply nth_upd_cases in Hj. destruct Hj as [(<- & -> & _)|(Hne & Hj)].
+        -- right. cbn. split; [exact Hh|]. right; right; right; left. auto.
+        -- left. apply Hothers; auto; congruence.
+    + (* return the loaded value *)
+      inversion Hrr as [c Hu]; subst.
+      unfold InvK, ids; cbn [ag alk aths alog map snd].
+      split; [|split; [exact Hg|split; [|]]].
+      * intros j tj Hj. apply nth_upd_cases in Hj. destruct Hj as [(<- & -> & _)|(Hne & Hj)].
+        -- right. cbn. split; [exact Hh|]. right; right; right; right. exact Hu.
+        -- left. apply Hothers; auto; congruence.
+      * constructor; [lia|exact Hle].
+      * constructor; [|exact Hnd]. rewrite Hr. intros Hin. eapply Forall_forall in Hlt; [|exact Hin]. cbn in Hlt. lia.
+    + (* unlock *)
+      inversion Hu as [c Ho]; subst.
+      unfold InvK, ids; cbn [ag alk aths alog].
+      split; [|split; [exact Hg|split; [exact Hle|exact Hnd]]].
+      intros j tj Hj. apply nth_upd_cases in Hj. destruct Hj as [(<- & -> & _)|(Hne & Hj)].
+      * left. cbn. split; [exact Ho|discriminate].
+      * left. apply Hothers; auto; congruence.
+Qed.
+
+Lemma lock_safeb_spec sk : lock_safeb sk = true -> sk = locked1 \/ sk = locked2.
+Proof.
+  unfold lock_safeb, locked1, locked2. intros H.
+  destruct sk as [|[] sk]; try discriminate. destruct sk as [|[] sk]; try discriminate.
+  destruct sk as [|[] sk]; try discriminate. destruct sk as [|[] sk]; try discriminate.
+  - destruct sk as [|[] sk]; try discriminate. destruct sk as [|[] sk]; try discriminate.
+    destruct sk; [auto|discriminate].
+  - destruct sk as [|[] sk]; try discriminate. destruct sk; [auto|discriminate].
+Qed.
+
+Lemma ainit_InvK sk g0 counts : lock_safeb sk = true -> InvK g0 (ainit sk g0 counts).
+Proof.
+  intros Hs. unfold InvK, ids, ainit; cbn [ag alk aths alog map].
+  split; [|split; [lia|split; constructor]].
+  intros i t Hi. left. split; [|discriminate].
+  apply nth_error_In in Hi. apply in_map_iff in Hi. destruct Hi as (n & <- & _). cbn.
+  destruct (lock_safeb_spec _ Hs) as [-> | ->]; [apply k_out_repeat1|apply k_out_repeat2].
+Qed.
+
+Theorem locked_unique sk g0 counts sched :
+  lock_safeb sk = true ->
+  let s := arun (ainit sk g0 counts) sched in
+  NoDup (ids s) /\ Forall (fun id => g0 < id <= ag s) (ids s).
+Proof.
+  intros Hs s.
+  assert (H : InvK g0 s).
+  { unfold s, arun. apply srun_invariant; [apply astep_InvK|]. now apply ainit_InvK. }
+  destruct H as (_ & _ & Hle & Hnd). split; assumption.
+Qed.
+
+Theorem alloc_unique sk g0 counts sched :
+  alloc_okb sk = true ->
+  let s := arun (ainit sk g0 counts) sched in
+  NoDup (ids s) /\ Forall (fun id => g0 < id <= ag s) (ids s).
+Proof.
+  unfold alloc_okb. intros H. apply orb_true_iff in H. destruct H as [H|H].
+  - now apply atomic_unique.
+  - now apply locked_unique.
+Qed.
+
+Local Open Scope N_scope.
+(* ------------------------------------------------------------------ decimal rendering *)
+Fixpoint pow10 (k : nat) : N := match k with O => 1 | S k' => 10 * pow10 k' end.
+(* value of a digit string: (value, 10^length) *)
+Fixpoint rval (l : bytes) : N * N :=
+  match l with
+  | [] => (0, 1)
+  | d :: r => let (v, p) := rval r in (v + (d - 48) * p, p * 10)
+  end.
+Definition is_digit (d : N) : Prop := 48 <= d <= 57.
+
+Lemma digits_val fuel : forall n acc, n < pow10 fuel ->
+  fst (rval (digits fuel n acc)) = fst (rval acc) + n * snd (rval acc).
+Proof.
+  induction fuel as [|f IH]; intros n acc Hn; cbn [digits].
+  - cbn in Hn. assert (n = 0) by lia. subst. lia.
+  - destruct (n <? 10) eqn:E.
+    + cbn [rval]. destruct (rval acc) as [v p]. cbn [fst snd]. lia.
+    + apply N.ltb_ge in E. rewrite IH.
+      * cbn [rval]. destruct (rval acc) as [v p]. cbn [fst snd].
+        pose proof (N.div_mod n 10 ltac:(lia)) as Hdm. 
+        replace (48 + n mod 10 - 48) with (n mod 10) by lia.
+        rewrite Hdm at 3. lia.
+      * cbn [pow10] in Hn. apply N.div_lt_upper_bound; lia.
+Qed.
+
+Lemma digits_are_digits fuel : forall n acc, Forall is_digit acc -> Forall is_digit (digits fuel n acc).
+Proof.
+  induction fuel as [|f IH]; intros n acc Ha; cbn [digits]; [exact Ha|].
+  destruct (n <? 10) eqn:E.
+  - apply N.ltb_lt in E. constructor; [unfold is_digit; lia|exact Ha].
+  - apply IH. constructor; [|exact Ha]. unfold is_digit. pose proof (N.mod_lt n 10 ltac:(lia)). lia.
+Qed.
+
+Lemma pos_lt_pow10 p : Npos p < pow10 (S (Pos.size_nat p)).
+Proof.
+  induction p as [p IH|p IH|]; cbn [Pos.size_nat pow10] in *; lia.
+Qed.
+
+(* fmt's %v of a non-negative int: decimal digits only, most significant first, value preserved *)
+Theorem dec_nonneg z : (0 <= z)%Z ->
+  Forall is_digit (dec z) /\ fst (rval (dec z)) = Z.to_N z.
+Proof.
+  intros Hz. destruct z as [|p|p]; [| |lia].
+  - cbn. split; [repeat constructor; unfold is_digit; lia|reflexivity].
+  - unfold dec. split; [apply digits_are_digits; constructor|].
+    rewrite digits_val; [cbn; lia|]. apply pos_lt_pow10.
+Qed.
+
+Theorem dec_neg p : dec (Zneg p) = 45 :: dec (Zpos p).
+Proof. reflexivity. Qed.
